@@ -268,7 +268,10 @@ func BuildVMModel(p *core.Program) (*VMModel, string) {
 				if path.Term == "" {
 					path.Term = "fall"
 				}
-				hp := m.interpret(path)
+				hp := m.interpretFor(path, op)
+				if hp.Term == "infeasible" {
+					continue // a test of the dispatch variable against another opcode of a shared clause
+				}
 				h.Paths = append(h.Paths, hp)
 			}
 			m.Handlers[op.Name] = h
@@ -398,12 +401,96 @@ func (m *VMModel) isLenMinus(info *types.Info, e ast.Expr, field string, k int) 
 }
 
 // interpret turns a syntactic path into VM events with value provenance.
-func (m *VMModel) interpret(path Path) HandlerPath {
+func (m *VMModel) interpret(path Path) HandlerPath { return m.interpretFor(path, nil) }
+
+// interpretFor interprets a path of a clause for one of its opcode labels: tests of the dispatch
+// variable against opcode constants are decided (a clause shared by two opcodes that differ in
+// one such test is read once per opcode).
+func (m *VMModel) interpretFor(path Path, op *Opcode) HandlerPath {
 	info := m.Prog.Pkg("vm").TypesInfo
 	hp := HandlerPath{Term: path.Term}
-	it := &vmInterp{m: m, info: info, callEv: map[*ast.CallExpr]int{}, vars: map[types.Object]*Origin{}}
+	it := &vmInterp{m: m, info: info, callEv: map[*ast.CallExpr]int{}, vars: map[types.Object]*Origin{}, op: op, bools: map[types.Object]bool{}}
+	if id, ok := Unparen(m.Switch.Tag).(*ast.Ident); ok {
+		it.tag = info.Uses[id]
+	}
 	it.run(path.Atoms, &hp)
+	if it.infeasible {
+		hp.Term = "infeasible"
+	}
 	return hp
+}
+
+// boolConst: the truth value of e when it is decided by the opcode being interpreted.
+func (it *vmInterp) boolConst(e ast.Expr) (bool, bool) {
+	e = Unparen(e)
+	switch x := e.(type) {
+	case *ast.Ident:
+		if v, ok := it.bools[it.info.Uses[x]]; ok {
+			return v, true
+		}
+		if tv, ok := it.info.Types[e]; ok && tv.Value != nil && tv.Value.Kind() == constant.Bool {
+			return constant.BoolVal(tv.Value), true
+		}
+	case *ast.UnaryExpr:
+		if x.Op == token.NOT {
+			if v, ok := it.boolConst(x.X); ok {
+				return !v, true
+			}
+		}
+	case *ast.BinaryExpr:
+		if (x.Op == token.EQL || x.Op == token.NEQ) && it.op != nil && it.tag != nil {
+			for _, side := range [][2]ast.Expr{{x.X, x.Y}, {x.Y, x.X}} {
+				tid, ok1 := Unparen(side[0]).(*ast.Ident)
+				cid, ok2 := Unparen(side[1]).(*ast.Ident)
+				if ok1 && ok2 && it.info.Uses[tid] == it.tag {
+					if o := it.m.opByObj(it.info.Uses[cid]); o != nil {
+						return (o == it.op) == (x.Op == token.EQL), true
+					}
+				}
+			}
+		}
+	}
+	return false, false
+}
+
+// normCond reduces a condition to (base, negated): `!X`, `X == true|false` and `X == <decided>`
+// are tests of X.
+func (it *vmInterp) normCond(e ast.Expr) (ast.Expr, bool) {
+	neg := false
+	for i := 0; i < 6; i++ {
+		e = Unparen(e)
+		if u, ok := e.(*ast.UnaryExpr); ok && u.Op == token.NOT {
+			e, neg = u.X, !neg
+			continue
+		}
+		if b, ok := e.(*ast.BinaryExpr); ok && (b.Op == token.EQL || b.Op == token.NEQ) {
+			if v, ok := it.boolConst(b.Y); ok {
+				e = b.X
+				if v != (b.Op == token.EQL) {
+					neg = !neg
+				}
+				continue
+			}
+			if v, ok := it.boolConst(b.X); ok {
+				e = b.Y
+				if v != (b.Op == token.EQL) {
+					neg = !neg
+				}
+				continue
+			}
+		}
+		break
+	}
+	return e, neg
+}
+
+func (m *VMModel) opByObj(obj types.Object) *Opcode {
+	for _, o := range m.Opcodes {
+		if types.Object(o.Obj) == obj {
+			return o
+		}
+	}
+	return nil
 }
 
 type vmInterp struct {
@@ -416,6 +503,11 @@ type vmInterp struct {
 	frames []*ast.CallExpr
 	conds  []condInfo
 	loadEv map[ast.Expr]bool
+	// per-opcode specialisation
+	op         *Opcode
+	tag        types.Object
+	bools      map[types.Object]bool
+	infeasible bool
 }
 
 func (it *vmInterp) emit(hp *HandlerPath, e VMEvent) int {
@@ -578,6 +670,9 @@ func (it *vmInterp) run(atoms []Atom, hp *HandlerPath) {
 			hp.Conds = append(hp.Conds, fmt.Sprintf("%s=%v", ExprStr(a.Node), a.Taken))
 			// memory limit check: a comparison that mentions vm.limit
 			c := a.Node.(ast.Expr)
+			if v, ok := it.boolConst(c); ok && v != a.Taken {
+				it.infeasible = true
+			}
 			if be, ok := Unparen(c).(*ast.BinaryExpr); ok {
 				if mentionsField(m, info, be, "limit") {
 					it.emit(hp, VMEvent{Kind: "limitcheck", Node: be, Expr: be, Dir: fmt.Sprint(a.Taken)})
@@ -720,8 +815,9 @@ func (it *vmInterp) assign(hp *HandlerPath, as *ast.AssignStmt) {
 			if n := len(it.conds); n > 0 {
 				// the innermost enclosing condition decides the jump
 				lc := it.conds[n-1]
-				ev.CondOn = it.origin(hp, stripNot(lc.expr))
-				ev.CondNeg = isNot(lc.expr) == lc.taken
+				base, neg := it.normCond(lc.expr)
+				ev.CondOn = it.origin(hp, base)
+				ev.CondNeg = neg == lc.taken
 				if n > 1 {
 					ev.Dir += "?nested"
 				}
@@ -804,6 +900,11 @@ func (it *vmInterp) assign(hp *HandlerPath, as *ast.AssignStmt) {
 				obj := info.Defs[id]
 				if obj == nil {
 					obj = info.Uses[id]
+				}
+				if v, ok := it.boolConst(as.Rhs[i]); ok && it.bools != nil {
+					it.bools[obj] = v
+				} else if it.bools != nil {
+					delete(it.bools, obj)
 				}
 				o := it.origin(hp, as.Rhs[i])
 				it.vars[obj] = o
@@ -894,7 +995,7 @@ func (it *vmInterp) loop(hp *HandlerPath, a Atom) {
 	for _, bp := range a.Body {
 		sub := HandlerPath{Term: bp.Term}
 		// loop-local interpreter shares variable bindings (conservatively copied)
-		it2 := &vmInterp{m: it.m, info: it.info, callEv: map[*ast.CallExpr]int{}, vars: map[types.Object]*Origin{}}
+		it2 := &vmInterp{m: it.m, info: it.info, callEv: map[*ast.CallExpr]int{}, vars: map[types.Object]*Origin{}, op: it.op, tag: it.tag, bools: map[types.Object]bool{}}
 		for k, v := range it.vars {
 			it2.vars[k] = v
 		}
